@@ -535,6 +535,14 @@ Definition exec (ps : pstate_) (toks : list str) : pstate_ * str :=
         end
       | _ => (ps, err)
       end
+    else if tok_is c "idna" then
+      (* model only: the raw answer of the UTS #46 oracle, for sampling the ICU laws of C07 *)
+      match args with
+      | [ta] => match parse_arg ta with
+                | Some a => (ps, lit "idna " ++ match idna (scalars_of a) with Some r => lit "ok " ++ hx r | None => lit "fail" end)
+                | None => (ps, err) end
+      | _ => (ps, err)
+      end
     else if tok_is c "reset" then (init_ps, lit "reset")
     else (ps, err)
   end.
